@@ -4,7 +4,6 @@ CONSTANTS
  MaxItems = 3
  MaxTicket = 10
  MaxStale = 0
- MaxGen = 2
  AllowRemove = FALSE
  Dev = {"stale_ticket"}
 INVARIANTS FairBoundTight
